@@ -216,6 +216,16 @@ def check_run(ctx, res, sel, setup, max_servers, fail_key, rid, stats, desc):
         else:
             if e["protocol"] != info["protocol"] or e["http_version"] != info["version"] or e["tls"] != info["tls"] or e["client_cert"] != info["certs"]:
                 ctx.add_violation("c05/request-axes/" + setup, "request of %r carries protocol=%s version=%s tls=%s certs=%s, permutation says %s" % (name, e["protocol"], e["http_version"], e["tls"], e["client_cert"], info), w)
+            exp = e.get("expect") or {}
+            if exp:
+                # (client mode: the peer is the reference server, which is told what to expect of each request)
+                stats["expectation_headers_checked"] = stats.get("expectation_headers_checked", 0) + 1
+                want_exp = {"x-expect-http-version": str(info["version"]), "x-expect-protocol": str(info["protocol"]), "x-expect-tls": "true" if info["tls"] else "false"}
+                for hk, hv in want_exp.items():
+                    if exp.get(hk) != hv:
+                        ctx.add_violation("c05/expectation-header/%s/%s" % (hk, setup), "request of %r tells the reference server %s: %r, the permutation says %r" % (name, hk, exp.get(hk), hv), w)
+                if ("x-expect-client-cert" in exp) != bool(info["certs"]):
+                    ctx.add_violation("c05/expectation-header/x-expect-client-cert/" + setup, "request of %r %s a client certificate to the reference server, the permutation %s one" % (name, "promises" if "x-expect-client-cert" in exp else "does not promise", "uses" if info["certs"] else "does not use"), w)
             if not e.get("host"):
                 ctx.add_violation("c05/request-without-host/" + setup, "request of %r was handed to the client without a host (server answered %s)" % (name, "without the optional host field" if res["script"].get("omit_host") else "with a host"), w)
             if e["name_header"] != name:
